@@ -32,6 +32,21 @@ def known_fns():
     return _KNOWN
 
 
+_KNOWN_CONSTS = None
+
+
+def known_consts():
+    """keys of the constants / statics that existed when the rule tables were confirmed (tools/freeze_params.py)"""
+    global _KNOWN_CONSTS
+    if _KNOWN_CONSTS is None:
+        _KNOWN_CONSTS = set()
+        p = os.path.join(os.path.dirname(os.path.abspath(__file__)), "known_consts.json")
+        if os.path.exists(p) and not os.environ.get("CWMT_NO_FROZEN"):
+            with open(p) as fh:
+                _KNOWN_CONSTS = set(json.load(fh))
+    return _KNOWN_CONSTS
+
+
 class Fn:
     def __init__(self, d):
         self.d = d
